@@ -589,8 +589,8 @@ def canaries(tier):
     return [
         {'name': 'shortest instead of longest baseline piece', 'patches': [(_F, 'baseline_is = baseline_is.geoms[np.argmax(lengths)]', 'baseline_is = baseline_is.geoms[np.argmin(lengths)]')], 'tasks': q},
         {'name': 'length threshold > 2 -> > 0', 'patches': [(_F, 'isinstance(textline_is, sg.Polygon) and baseline_is.length > 2:', 'isinstance(textline_is, sg.Polygon) and baseline_is.length > 0:')], 'tasks': q},
-        {'name': 'pre-filter: a pair is a candidate only if it overlaps in neither... (outer and -> or keeps soundness: negative control)',
-         'patches': [(_F, '    candidates = np.logical_and(\n        np.logical_or(', '    candidates = np.logical_or(\n        np.logical_or(')], 'tasks': q, 'expect': False},
+        {'name': 'pre-filter: outer and -> or (drops baselines lying exactly on a region edge)',
+         'patches': [(_F, '    candidates = np.logical_and(\n        np.logical_or(', '    candidates = np.logical_or(\n        np.logical_or(')], 'tasks': q},
         {'name': 'pre-filter inner or -> and for the vertical test (drops pairs that intersect)',
          'patches': [(_F, '    candidates = np.logical_and(\n        np.logical_or(\n            max_line[:, np.newaxis, 1] <= min_region[np.newaxis, :, 1],', '    candidates = np.logical_or(\n        np.logical_or(\n            max_line[:, np.newaxis, 1] <= min_region[np.newaxis, :, 1] + 5,')],
          'tasks': q},
